@@ -49,6 +49,12 @@ type undoRec struct {
 }
 
 // State of one worker's interpreter (not shared between workers).
+// pendingTimer is an armed time.AfterFunc timer.
+type pendingTimer struct {
+	cell *value
+	fn   value
+}
+
 type interpreter struct {
 	prog               *ssa.Program
 	globals            map[*ssa.Global]*value
@@ -72,6 +78,7 @@ type interpreter struct {
 	depth    int
 	funcsHit map[*ssa.Function]int
 	stubsHit map[string]int
+	timers   []*pendingTimer // armed time.AfterFunc callbacks (run by verifrt.FireTimers)
 	timeNow  int // counter of symbolic clock readings
 	lastNow  *Term
 	notes    map[string]string
